@@ -254,6 +254,18 @@ func emitRules(c *core.Ctx, s *Stage) {
 				}
 			}
 		}
+		// leaving on an observed cancellation before the application is always allowed
+		if nApply == 0 && p.To != h && factsOf(p).done {
+			continue
+		}
+		// a pause that cannot last (frequency <= 0 established on the path) may be skipped: time.Sleep returns at
+		// once for such a duration
+		if nApply == 1 && nSleep == 0 {
+			fq := &ir.Term{Op: "param", Aux: freq[0].Name(), Src: freq[0]}
+			if polarity(p, &ir.Term{Op: "bin", Aux: "<", Args: []*ir.Term{ir.Const("0"), fq}}) < 0 || polarity(p, &ir.Term{Op: "bin", Aux: "<=", Args: []*ir.Term{fq, ir.Const("0")}}) > 0 {
+				nSleep, sleepBefore = 1, true
+			}
+		}
 		if nApply != 1 || nSleep != 1 || !sleepBefore {
 			okP = false
 			c.Fail("emit-paced", name, lastPos(p), "every iteration must sleep exactly once before its single application (sleeps=%d, applications=%d):\n%s", nSleep, nApply, p)
@@ -495,7 +507,7 @@ func runC13(c *core.Ctx) {
 					continue
 				}
 				at := st.Atom
-				if at.Op != "bin" || at.Aux != "<" {
+				if at.Op != "bin" || at.Aux != "<" && at.Aux != "==" {
 					continue
 				}
 				isCnt := func(x *ir.Term) bool {
@@ -509,6 +521,27 @@ func runC13(c *core.Ctx) {
 					}
 					dd, isK := plusConst(x, base)
 					return isK && dd == sgn*d
+				}
+				if at.Aux == "==" {
+					// `counter != ops` (counting up from 0 in steps of one: the counter never passes ops, which the
+					// capacity of the control channel requires to be non-negative) and `counter != 0` (counting down from
+					// ops) say the same as the order tests
+					if len(at.Args) != 2 {
+						continue
+					}
+					for j := 0; j < 2; j++ {
+						a, b := at.Args[j], at.Args[1-j]
+						if !isCnt(a) {
+							continue
+						}
+						if !down && ir.Same(b, opsT) {
+							return -polInt(st.Pol)
+						}
+						if zero, isK := b.IntConst(); down && isK && zero == 0 {
+							return -polInt(st.Pol)
+						}
+					}
+					continue
 				}
 				if !down && ir.Same(at.Args[1], opsT) && isCnt(at.Args[0]) {
 					return polInt(st.Pol)
